@@ -13,6 +13,11 @@ import AL.Lemmas.Contain
 namespace AL.Properties.C07
 open AL AL.Impl AL.Gen AL.Lemmas
 
+/- The theorems hold for EVERY per-line function `lfo` (whatever bytes or errors the encoder
+    produces for a line under an option byte); the library is the instance `lfo = assembleLine`.
+    Only `assemble_within_reserve` — the length test in `emitOne` — is needed, no fact about the
+    encoder. -/
+
 /-- the calls of the property -/
 inductive Op
   | setter (w : Setter) (v : Nat)
@@ -21,12 +26,12 @@ inductive Op
   | asm (text : Str)
   | count (c : Int) (text : Str) (hasDest : Bool)
 
-def stepOp (a : Inst) : Op → Inst
+def stepOp (lfo : LineFnOf) (a : Inst) : Op → Inst
   | .setter w v => applySetter a w v
   | .chunk c => setChunkSize a c
   | .offset k => setOffset a k
-  | .asm t => (asmAssembleStr a t).1
-  | .count c t d => (asmCountingChunks a t c d).1
+  | .asm t => (asmAssembleStrWith lfo a t).1
+  | .count c t d => (asmCountingChunksWith lfo a t c d).1
 
 /-- `asm_set_offset(k)` is within the property's domain when 0 ≤ k ≤ n -/
 def Op.valid (n : Nat) : Op → Prop
@@ -80,8 +85,9 @@ theorem J_restore (n : Nat) (a : Inst) (m : Mode) (c : Nat) (h : J n a) :
 
 /-- **C07, one call**: every call of the property preserves the invariant, and the assemble
     and counting calls leave everything before their starting offset unchanged. -/
-theorem step_J (n : Nat) (hn : n + 60 < 2 ^ 31) (a : Inst) (hJ : J n a) (op : Op) (hv : op.valid n) :
-    J n (stepOp a op) ∧ (stepOp a op).mem.take a.offset.toNat = a.mem.take a.offset.toNat := by
+theorem step_J (lfo : LineFnOf) (n : Nat) (hn : n + 60 < 2 ^ 31) (a : Inst) (hJ : J n a) (op : Op)
+    (hv : op.valid n) :
+    J n (stepOp lfo a op) ∧ (stepOp lfo a op).mem.take a.offset.toNat = a.mem.take a.offset.toNat := by
   cases op with
   | setter w v =>
     exact ⟨⟨hJ.ext, hJ.inv, hJ.len, hJ.oob, hJ.off0, hJ.offn⟩, rfl⟩
@@ -93,9 +99,9 @@ theorem step_J (n : Nat) (hn : n + 60 < 2 ^ 31) (a : Inst) (hJ : J n a) (op : Op
   | offset k =>
     exact ⟨⟨hJ.ext, hJ.inv, hJ.len, hJ.oob, hv.1, hv.2⟩, rfl⟩
   | asm t =>
-    obtain ⟨h1, h2, h3, h4, h5, h6, _, _, _, h10⟩ := all_J n hn a hJ (lineFn a) t false
-    simp only [stepOp, asmAssembleStr]
-    cases hr : (assembleAll (lineFn a) a t false).ret with
+    obtain ⟨h1, h2, h3, h4, h5, h6, _, _, _, h10⟩ := all_J n hn a hJ (lfo a.opt) t false
+    simp only [stepOp, asmAssembleStrWith]
+    cases hr : (assembleAll (lfo a.opt) a t false).ret with
     | error e =>
       exact ⟨⟨h1, h2, h3, h4, by rw [h5]; exact hJ.off0, by rw [h5]; exact hJ.offn⟩, h6⟩
     | ok bp =>
@@ -104,14 +110,14 @@ theorem step_J (n : Nat) (hn : n + 60 < 2 ^ 31) (a : Inst) (hJ : J n a) (op : Op
       exact ⟨J_set_offset n _ _ h1 h2 h3 h4 (by rw [hbi]; omega) (by rw [hbi]; omega), h6⟩
   | count c t d =>
     -- the call runs `assemble_all` on the instance with mode/chunk replaced, then restores them
-    simp only [stepOp, asmCountingChunks]
+    simp only [stepOp, asmCountingChunksWith]
     have hJ1 : J n (countSetup a c) := ⟨hJ.ext, hJ.inv, hJ.len, hJ.oob, hJ.off0, hJ.offn⟩
     have ho : (countSetup a c).offset = a.offset := rfl
     have hm : (countSetup a c).mem = a.mem := rfl
     generalize countSetup a c = a1 at *
-    obtain ⟨h1, h2, h3, h4, h5, h6, _, _, _, h10⟩ := all_J n hn a1 hJ1 (lineFn a1) t d
+    obtain ⟨h1, h2, h3, h4, h5, h6, _, _, _, h10⟩ := all_J n hn a1 hJ1 (lfo a1.opt) t d
     rw [ho, hm] at h6
-    cases hr : (assembleAll (lineFn a1) a1 t d).ret with
+    cases hr : (assembleAll (lfo a1.opt) a1 t d).ret with
     | error e =>
       exact ⟨J_restore n _ _ _ ⟨h1, h2, h3, h4, by rw [h5, ho]; exact hJ.off0,
         by rw [h5, ho]; exact hJ.offn⟩, h6⟩
@@ -125,24 +131,30 @@ theorem step_J (n : Nat) (hn : n + 60 < 2 ^ 31) (a : Inst) (hJ : J n a) (op : Op
 
 /-- **C07, every history**: for a caller buffer of any length `n` (below 2 GiB) with any prior
     contents, after any finite sequence of valid calls nothing was stored outside the buffer. -/
-theorem contained (n : Nat) (hn : n + 60 < 2 ^ 31) (fill : List Nat) (hfill : fill.length = n)
-    (ops : List Op) (hv : ∀ op ∈ ops, op.valid n) :
-    J n (ops.foldl stepOp (createExternal n fill)) := by
-  suffices h : ∀ a, J n a → J n (ops.foldl stepOp a) from h _ (J_create n fill hfill)
+theorem contained (lfo : LineFnOf) (n : Nat) (hn : n + 60 < 2 ^ 31) (fill : List Nat)
+    (hfill : fill.length = n) (ops : List Op) (hv : ∀ op ∈ ops, op.valid n) :
+    J n (ops.foldl (stepOp lfo) (createExternal n fill)) := by
+  suffices h : ∀ a, J n a → J n (ops.foldl (stepOp lfo) a) from h _ (J_create n fill hfill)
   induction ops with
   | nil => intro a h; exact h
   | cons op rest ih =>
     intro a h
     simp only [List.foldl_cons]
     exact ih (fun o ho => hv o (List.mem_cons_of_mem _ ho)) _
-      (step_J n hn a h op (hv op List.mem_cons_self)).1
+      (step_J lfo n hn a h op (hv op List.mem_cons_self)).1
 
 /-- in words: the out-of-bounds log is empty and the buffer still has its `n` bytes -/
-theorem contained_oob (n : Nat) (hn : n + 60 < 2 ^ 31) (fill : List Nat) (hfill : fill.length = n)
+theorem contained_oob (lfo : LineFnOf) (n : Nat) (hn : n + 60 < 2 ^ 31) (fill : List Nat)
+    (hfill : fill.length = n) (ops : List Op) (hv : ∀ op ∈ ops, op.valid n) :
+    (ops.foldl (stepOp lfo) (createExternal n fill)).oob = [] ∧
+    (ops.foldl (stepOp lfo) (createExternal n fill)).mem.length = n :=
+  ⟨(contained lfo n hn fill hfill ops hv).oob, (contained lfo n hn fill hfill ops hv).len⟩
+
+/-- the library itself -/
+theorem contained_lib (n : Nat) (hn : n + 60 < 2 ^ 31) (fill : List Nat) (hfill : fill.length = n)
     (ops : List Op) (hv : ∀ op ∈ ops, op.valid n) :
-    (ops.foldl stepOp (createExternal n fill)).oob = [] ∧
-    (ops.foldl stepOp (createExternal n fill)).mem.length = n :=
-  ⟨(contained n hn fill hfill ops hv).oob, (contained n hn fill hfill ops hv).len⟩
+    (ops.foldl (stepOp assembleLine) (createExternal n fill)).oob = [] :=
+  (contained_oob assembleLine n hn fill hfill ops hv).1
 
 /-- **the reserve clause**: on a caller buffer, when fewer than BUFFER_TOLERANCE (20) bytes are
     left at the position of the next instruction, that instruction is not stored: the step
